@@ -202,3 +202,35 @@ Proof.
     unfold stitch in H. destruct (stitch_fuel (total_len ps) ps); [inversion K | discriminate].
   - intro H. exact (proj2 (stitch_channel_order []) ps H).
 Qed.
+
+(* several substreams: a part that one substream lacks is absent altogether; a part all substreams have is their
+   time-ordered concatenation (a single substream: the sensor itself) *)
+Lemma part_of_substreams_absent : forall subs, In None subs -> part_of_substreams subs = [].
+Proof.
+  intros subs H. unfold part_of_substreams.
+  assert (E : forallb is_some subs = false).
+  { apply not_true_is_false. intro K. rewrite forallb_forall in K. specialize (K None H). discriminate. }
+  rewrite E. reflexivity.
+Qed.
+
+Lemma fmap_id_some : forall ps : list part, fmap (fun o : option part => o) (map Some ps) = ps.
+Proof. induction ps as [|p t IH]; [reflexivity|]. cbn [map fmap]. rewrite IH. reflexivity. Qed.
+
+Lemma part_of_substreams_present : forall ps,
+  part_of_substreams (map Some ps) = match ps with [p] => p | _ => merge_substreams ps end.
+Proof.
+  intro ps. unfold part_of_substreams.
+  assert (E : forallb is_some (map (@Some part) ps) = true).
+  { apply forallb_forall. intros x Hx. apply in_map_iff in Hx. destruct Hx as [p [Ep _]]. subst x. reflexivity. }
+  rewrite E.
+  pose proof (fmap_id_some ps) as F.
+  destruct ps as [|p [|q t]]; [reflexivity | reflexivity |].
+  change (map Some (p :: q :: t)) with (Some p :: Some q :: map Some t). cbn iota.
+  change (Some p :: Some q :: map Some t) with (map (@Some part) (p :: q :: t)). rewrite F. reflexivity.
+Qed.
+
+Theorem stitch_substreams_spec :
+  (forall parts, stitch_substreams parts = stitch (map part_of_substreams parts)) /\
+  (forall subs, In None subs -> part_of_substreams subs = []) /\
+  (forall ps, part_of_substreams (map Some ps) = match ps with [p] => p | _ => merge_substreams ps end).
+Proof. split; [reflexivity|]. split; [exact part_of_substreams_absent | exact part_of_substreams_present]. Qed.
